@@ -333,21 +333,39 @@ fn r3(t: &mut Tape, prog: &mut Prog) -> bool {
     if cols.len() > 3 {
         return false;
     }
-    fn subst(e: &Expr, cols: &[ColRef]) -> Expr {
+    // integer literal leaves become named parameters with a default (up to three, declared in an
+    // order that is not alphabetical): either the default is the literal and the call omits the
+    // argument, or the default is another value and the call passes the literal
+    const LIT_NAMES: [&str; 3] = ["zq", "zb", "zm"];
+    let mut lits: Vec<i64> = vec![];
+    if t.chance(2, 3) {
+        expr.walk(&mut |x| {
+            if let Expr::Lit(Val::Int(v)) = x {
+                if !lits.contains(v) && lits.len() < 3 {
+                    lits.push(*v);
+                }
+            }
+        });
+    }
+    fn subst(e: &Expr, cols: &[ColRef], lits: &[i64]) -> Expr {
         match e {
             Expr::Col(c) => {
                 let i = cols.iter().position(|d| d.idx == c.idx && d.text == c.text).unwrap();
                 Expr::Param(i, format!("zp{i}"))
             }
-            Expr::Bin(op, l, r) => Expr::Bin(*op, Box::new(subst(l, cols)), Box::new(subst(r, cols))),
-            Expr::Un(op, x) => Expr::Un(*op, Box::new(subst(x, cols))),
-            Expr::Paren(x) => Expr::Paren(Box::new(subst(x, cols))),
-            Expr::Case(bs) => Expr::Case(bs.iter().map(|(c, v)| (subst(c, cols), subst(v, cols))).collect()),
-            Expr::In(x, lo, hi) => Expr::In(Box::new(subst(x, cols)), lo.clone(), hi.clone()),
+            Expr::Lit(Val::Int(v)) if lits.contains(v) => {
+                let k = lits.iter().position(|w| w == v).unwrap();
+                Expr::Param(cols.len() + k, LIT_NAMES[k].to_string())
+            }
+            Expr::Bin(op, l, r) => Expr::Bin(*op, Box::new(subst(l, cols, lits)), Box::new(subst(r, cols, lits))),
+            Expr::Un(op, x) => Expr::Un(*op, Box::new(subst(x, cols, lits))),
+            Expr::Paren(x) => Expr::Paren(Box::new(subst(x, cols, lits))),
+            Expr::Case(bs) => Expr::Case(bs.iter().map(|(c, v)| (subst(c, cols, lits), subst(v, cols, lits))).collect()),
+            Expr::In(x, lo, hi) => Expr::In(Box::new(subst(x, cols, lits)), lo.clone(), hi.clone()),
             other => other.clone(),
         }
     }
-    let body = subst(&expr, &cols);
+    let body = subst(&expr, &cols, &lits);
     let fi = prog.funcs.len();
     let mut params: Vec<FuncParam> = (0..cols.len())
         .map(|i| FuncParam {
@@ -355,11 +373,26 @@ fn r3(t: &mut Tape, prog: &mut Prog) -> bool {
             default: None,
         })
         .collect();
-    // optionally a named parameter with a default that the body ignores / uses
+    let mut lit_args: Vec<(String, Expr)> = vec![];
+    for (k, v) in lits.iter().enumerate() {
+        let passed = t.chance(2, 3);
+        params.push(FuncParam {
+            name: LIT_NAMES[k].to_string(),
+            default: Some(Expr::Lit(Val::Int(if passed { *v + 7 } else { *v }))),
+        });
+        if passed {
+            lit_args.push((LIT_NAMES[k].to_string(), Expr::Lit(Val::Int(*v))));
+        }
+    }
+    // the call may write its named arguments in either order
+    if t.chance(1, 2) {
+        lit_args.reverse();
+    }
+    // optionally a named parameter with a default that the body ignores
     let named_default = t.chance(1, 3);
     if named_default {
         params.push(FuncParam {
-            name: "zq".into(),
+            name: "zu".into(),
             default: Some(Expr::Lit(Val::Int(0))),
         });
     }
@@ -372,11 +405,10 @@ fn r3(t: &mut Tape, prog: &mut Prog) -> bool {
     });
     let args: Vec<Expr> = cols.iter().map(|c| Expr::Col(c.clone())).collect();
     let style = if !args.is_empty() && t.chance(1, 3) { CallStyle::Piped } else { CallStyle::Positional };
-    let named = if named_default && t.chance(1, 2) {
-        vec![("zq".to_string(), Expr::Lit(Val::Int(5)))]
-    } else {
-        vec![]
-    };
+    let mut named = lit_args;
+    if named_default && t.chance(1, 2) {
+        named.push(("zu".to_string(), Expr::Lit(Val::Int(5))));
+    }
     let call = Expr::Call {
         func: fi,
         args,
